@@ -88,6 +88,7 @@ Fixpoint parse_expr (fuel : nat) (l : list str) : option (expr * list str) :=
         end
       else if tk [76;73] t then match r with d :: r1 => un (EList d) r1 | [] => None end
       else if tk [85;76] t then match r with d :: r1 => un (EUniqueList d) r1 | [] => None end
+      else if tk [80;84] t then lst EPartition r
       else if tk [66] t then
         match r with
         | n :: r1 => match undec n with
